@@ -17,7 +17,7 @@ func init() {
 		Assumptions: []string{
 			"MTU in {3,4,5,6,7,8,16,17,100}; unit types {1,5,7,8,9,12} (+6,23 in short sequences); sizes {2,3,MTU-1,MTU,MTU+1,2MTU+1}; bodies contain no zero byte (Annex-B conformant: no start-code emulation, no trailing zero); a final type-1 unit is appended so that held-back parameter sets have a next unit; a separate scenario sweeps SPS/PPS sizes so that STAP-A(SPS,PPS) is one byte under, exactly at and one byte over every MTU 9..40",
 			"the hold-back anomalies of H264Payloader for parameter sets that are not an SPS immediately followed by a PPS, and the silent drop of a STAP-A larger than the MTU, are listed known findings matched by an exact defect model of the hold-back state machine",
-			"wide scenario: every NAL type 1-23 x NRI 0-3 alone and after an SPS/PPS pair; units of 300, 257*(MTU-2)+1 (more than 256 fragments), 70000 bytes for MTU {5,100,1200}; SPS/PPS of {6,255,256,257,700,32766} x {6,255,256,300,32765} bytes at MTU 1200 and 65535; all sequences of 5-6 units over {slice 2B, slice MTU+1, SPS+PPS pair} split over three calls",
+			"wide scenario: every NAL type 1-23 x NRI 0-3 alone and after an SPS/PPS pair; units of 300, 257*(MTU-2)+1 (more than 256 fragments), 70000 bytes for MTU {5,100,1200}; SPS/PPS of {6,255,256,257,700,32766} x {6,255,256,300,32765} bytes at MTU 1200 and 65535; all sequences of 5 (thorough: 6) units over {slice 2B, slice MTU+1, SPS+PPS pair, lone SPS, lone PPS} split over three calls",
 			"unit bodies: EVERY body of 1-7 bytes (thorough: 8) over {00,01,03,FF} that is legal inside a NAL unit (no 00 00 00 / 00 00 01, no trailing 00) as a type-5 unit between two other units, 3- and 4-byte start codes, MTU {5,100}",
 			"decoder side: F bit 0, FU-A trains of 2-4 fragments with every split point of units of up to 8 bytes",
 		},
@@ -458,10 +458,19 @@ func c10Wide(c *mc.Ctx) {
 	case 2: // longer sequences
 		mtu := mc.From(c, []int{6, 40})
 		n := 5 + c.Pick(2)
+		if !c.Thorough() {
+			n = 5
+		}
 		var raw [][]byte
 		var codes []int
 		for i := 0; i < n; i++ {
-			switch c.Pick(3) {
+			switch c.Pick(5) {
+			case 3: // a parameter set on its own: the hold-back state is left half filled
+				raw = append(raw, ref.H264Unit(7, 3, 3, byte(i)))
+				codes = append(codes, 4)
+			case 4:
+				raw = append(raw, ref.H264Unit(8, 3, 2, byte(i)))
+				codes = append(codes, 3)
 			case 0:
 				raw = append(raw, ref.H264Unit(1, 2, 2, byte(i)))
 				codes = append(codes, 3)
